@@ -11,7 +11,7 @@ CONSTANTS NParams, MaxVals, MaxCases
 
 PNames == <<"algo", "beta", "cycles", "dist">>
 \* values per parameter are distinct across parameters; numbers included (sorted as text: "10" < "9")
-ValsOf == [algo |-> <<"mgm", "dsa", "adsa", "zeta">>, beta |-> <<"9", "10", "2", "33">>,
+ValsOf == [algo |-> <<"mgm", "dsa", "adsa", "zeta">>, beta |-> <<"0", "10", "2", "33">>,
            cycles |-> <<"x1", "X1", "x0", "_">>, dist |-> <<"0.5", "0.25", "1e3", "b">>]
 SubNames == <<"s", "r">>
 Prefix(s, k) == [i \in 1..k |-> s[i]]
